@@ -1362,6 +1362,21 @@ impl<'a> Gen<'a> {
                 _ => inner.clone(),
             };
             // destructuring binding (assign family only)
+            if !matches!(kind, LetKind::Let | LetKind::LetStar) && self.rng.chance(1, 12) {
+                // a proper-list pattern of 3..4 names bound to a list of as many values (deeper paths than a pair)
+                let k = 3 + self.rng.below(2);
+                let mut names = vec![(name.clone(), self.pick_ty())];
+                for _ in 1..k {
+                    names.push((self.fresh("v"), self.pick_ty()));
+                }
+                let vals: Vec<Expr> = names.iter().map(|(_, t)| self.gen_expr(*t, d, &see)).collect();
+                bindings.push((Pat::flat(&names, None), Expr::List(vals)));
+                for (n, t) in names.into_iter() {
+                    inner.push((n.clone(), t));
+                    new_names.push((n, t));
+                }
+                continue;
+            }
             if !matches!(kind, LetKind::Let | LetKind::LetStar) && self.rng.chance(1, 4) {
                 let n2 = self.fresh("v");
                 let (ta, tb) = (self.pick_ty(), self.pick_ty());
